@@ -29,6 +29,7 @@ func init() {
 	register("C10/C11: proc/redis/codec.go, bufio.go, session.go, upstream.go", func() {
 		defZ("max_array_len", constInt("proc/redis/codec.go", "maxArrayLen"))
 		defZ("max_bulk_len", constInt("proc/redis/codec.go", "maxBulkStringLen"))
+		defN("max_array_depth", constInt("proc/redis/codec.go", "maxArrayDepth"))
 		defZ("min_itoa", constInt("proc/redis/codec.go", "minItoa"))
 		defZ("max_itoa", constInt("proc/redis/codec.go", "maxItoa"))
 		defN("default_buffer_size", constInt("proc/redis/bufio.go", "defaultBufferSize"))
